@@ -46,7 +46,15 @@ let run_flags (args : (string * string) list) : string =
        (* compared as key=value sets: order of the lines and comment lines are not content *)
        (* the statistics lines (floating-point formatting) are not compared *)
        let fk = ["avgref="; "avgdist="; "bitsperlink="; "bitspernode="; "compratio="] in
-       add "text" (if props_canon fk itext = props_canon fk mtext then "ok" else "FAIL");
+       (* the same code assignment can be spelt in several ways (a default code written out
+          explicitly, the order of the flags): texts that differ only in the compressionflags /
+          zetak lines are accepted when the PROVED parser reads the same assignment from both *)
+       let fk2 = fk @ ["compressionflags="; "zetak="] in
+       let same_sets = props_canon fk itext = props_canon fk mtext in
+       let same_meaning = props_canon fk2 itext = props_canon fk2 mtext
+                          && describe (parse_properties le (coq_of_string itext)) = describe (parse_properties le mt) in
+       add "text" (if same_sets || same_meaning then "ok" else "FAIL");
+       add "i_textflags" (if same_sets then "same" else "other-spelling");
        add "i_textexact" (if itext = mtext then "same" else "differs");
        (* the model's reading of the implementation's text *)
        let mback = describe (parse_properties le (coq_of_string itext)) in
